@@ -243,8 +243,46 @@ func (q *Cut) RunPhiSensitive(c *Ctx) (string, int) { return q.Run(c) }
 // it has the same truth at both), boolean phis that are tested, and the phis
 // feeding them.
 type condInfo struct {
-	multi map[ssa.Value]bool // bases tested by >= 2 Ifs
-	phis  map[*ssa.Phi]bool  // bool phis tested by an If, or feeding one
+	multi map[string]bool   // canonical conditions tested by >= 2 Ifs (or feeding a tested phi)
+	phis  map[*ssa.Phi]bool // bool phis tested by an If, or feeding one
+}
+
+// condCanon: a canonical spelling of a pure boolean expression over SSA
+// values (go/ssa does no common-subexpression elimination: `c == nil` written
+// twice is two instructions with the same meaning), and the values it reads.
+func condCanon(v ssa.Value) (string, []ssa.Value) {
+	return condCanonD(v, 0)
+}
+
+func condCanonD(v ssa.Value, d int) (string, []ssa.Value) {
+	if d > 6 {
+		return v.Name(), []ssa.Value{v}
+	}
+	switch x := v.(type) {
+	case *ssa.Const:
+		if x.Value == nil {
+			return "nil", nil
+		}
+		return x.Value.ExactString(), nil
+	case *ssa.ChangeType:
+		return condCanonD(x.X, d+1)
+	case *ssa.BinOp:
+		switch x.Op {
+		case token.EQL, token.NEQ, token.LSS, token.LEQ, token.GTR, token.GEQ, token.ADD, token.SUB, token.AND, token.OR:
+			a, la := condCanonD(x.X, d+1)
+			b, lb := condCanonD(x.Y, d+1)
+			if (x.Op == token.EQL || x.Op == token.NEQ || x.Op == token.ADD) && b < a {
+				a, b = b, a
+			}
+			return "(" + a + x.Op.String() + b + ")", append(append([]ssa.Value{v}, la...), lb...)
+		}
+	case *ssa.UnOp:
+		if x.Op == token.NOT {
+			a, la := condCanonD(x.X, d+1)
+			return "!" + a, append([]ssa.Value{v}, la...)
+		}
+	}
+	return v.Name(), []ssa.Value{v}
 }
 
 var condInfoMemo = map[*ssa.Function]*condInfo{}
@@ -253,8 +291,8 @@ func condInfoOf(f *ssa.Function) *condInfo {
 	if ci, ok := condInfoMemo[f]; ok {
 		return ci
 	}
-	ci := &condInfo{multi: map[ssa.Value]bool{}, phis: map[*ssa.Phi]bool{}}
-	count := map[ssa.Value]int{}
+	ci := &condInfo{multi: map[string]bool{}, phis: map[*ssa.Phi]bool{}}
+	count := map[string]int{}
 	var addPhi func(p *ssa.Phi)
 	addPhi = func(p *ssa.Phi) {
 		if ci.phis[p] {
@@ -273,22 +311,24 @@ func condInfoOf(f *ssa.Function) *condInfo {
 			continue
 		}
 		base, _ := stripNot(i.Cond)
-		count[base]++
+		k, _ := condCanon(base)
+		count[k]++
 		if p, ok := base.(*ssa.Phi); ok {
 			addPhi(p)
 		}
 	}
-	for v, n := range count {
+	for k, n := range count {
 		if n >= 2 {
-			ci.multi[v] = true
+			ci.multi[k] = true
 		}
 	}
 	// operands of tracked phis that are themselves conditions elsewhere
 	for p := range ci.phis {
 		for _, e := range p.Edges {
 			eb, _ := stripNot(e)
-			if count[eb] >= 1 {
-				ci.multi[eb] = true
+			k, _ := condCanon(eb)
+			if count[k] >= 1 {
+				ci.multi[k] = true
 			}
 		}
 	}
@@ -296,13 +336,18 @@ func condInfoOf(f *ssa.Function) *condInfo {
 	return ci
 }
 
+type knownCond struct {
+	val    bool
+	leaves []ssa.Value
+}
+
 type psEnv struct {
-	known map[ssa.Value]bool
+	known map[string]knownCond
 	phiOp map[*ssa.Phi]ssa.Value
 }
 
 func (e psEnv) clone() psEnv {
-	n := psEnv{known: make(map[ssa.Value]bool, len(e.known)), phiOp: make(map[*ssa.Phi]ssa.Value, len(e.phiOp))}
+	n := psEnv{known: make(map[string]knownCond, len(e.known)), phiOp: make(map[*ssa.Phi]ssa.Value, len(e.phiOp))}
 	for k, v := range e.known {
 		n.known[k] = v
 	}
@@ -315,7 +360,7 @@ func (e psEnv) clone() psEnv {
 func (e psEnv) sig() string {
 	var ks []string
 	for k, v := range e.known {
-		ks = append(ks, fmt.Sprintf("%s=%v", k.Name(), v))
+		ks = append(ks, fmt.Sprintf("%s=%v", k, v.val))
 	}
 	for k, v := range e.phiOp {
 		ks = append(ks, fmt.Sprintf("%s:%s", k.Name(), v.Name()))
@@ -380,8 +425,8 @@ func (q *Cut) Run(c *Ctx) (string, int) {
 		if t, ok := q.Assume[base]; ok {
 			return t != neg, true
 		}
-		if t, ok := e.known[base]; ok {
-			return t != neg, true
+		if kc, ok := e.known[func() string { k, _ := condCanon(base); return k }()]; ok {
+			return kc.val != neg, true
 		}
 		if p, ok := base.(*ssa.Phi); ok {
 			if op, ok := e.phiOp[p]; ok && op != ssa.Value(p) {
@@ -395,14 +440,16 @@ func (q *Cut) Run(c *Ctx) (string, int) {
 	learn := func(e psEnv, v ssa.Value, t bool) {
 		base, neg := stripNot(v)
 		t = t != neg
-		if ci.multi[base] {
-			e.known[base] = t
+		if k, leaves := condCanon(base); ci.multi[k] {
+			e.known[k] = knownCond{t, leaves}
 		}
 		if p, ok := base.(*ssa.Phi); ok {
 			if op, ok := e.phiOp[p]; ok && op != ssa.Value(p) {
 				ob, oneg := stripNot(op)
-				if _, isC := ob.(*ssa.Const); !isC && ci.multi[ob] {
-					e.known[ob] = t != oneg
+				if _, isC := ob.(*ssa.Const); !isC {
+					if k, leaves := condCanon(ob); ci.multi[k] {
+						e.known[k] = knownCond{t != oneg, leaves}
+					}
 				}
 			}
 		}
@@ -479,7 +526,7 @@ func (q *Cut) Run(c *Ctx) (string, int) {
 		delete(condOverride, b)
 		return r
 	}
-	start := psEnv{known: map[ssa.Value]bool{}, phiOp: map[*ssa.Phi]ssa.Value{}}
+	start := psEnv{known: map[string]knownCond{}, phiOp: map[*ssa.Phi]ssa.Value{}}
 	if len(q.From) == 0 && len(q.FromEdges) == 0 {
 		push(q.Fn.Blocks[0], 0, start, nil)
 	}
@@ -525,8 +572,14 @@ func (q *Cut) Run(c *Ctx) (string, int) {
 			in := b.Instrs[i]
 			// a value that is computed again (loop iteration) is a new run-time value: forget the old one
 			if v, isV := in.(ssa.Value); isV {
-				_, k := it.e.known[v]
-				stale := k
+				stale := false
+				for _, kc := range it.e.known {
+					for _, l := range kc.leaves {
+						if l == v {
+							stale = true
+						}
+					}
+				}
 				for _, op := range it.e.phiOp {
 					if op == v {
 						stale = true
@@ -534,7 +587,14 @@ func (q *Cut) Run(c *Ctx) (string, int) {
 				}
 				if stale {
 					ne := it.e.clone()
-					delete(ne.known, v)
+					for k, kc := range ne.known {
+						for _, l := range kc.leaves {
+							if l == v {
+								delete(ne.known, k)
+								break
+							}
+						}
+					}
 					for p, op := range ne.phiOp {
 						if op == v {
 							delete(ne.phiOp, p)
@@ -582,7 +642,7 @@ func (q *Cut) Run(c *Ctx) (string, int) {
 			if ifi != nil {
 				base, _ := stripNot(ifi.Cond)
 				_, isPhi := base.(*ssa.Phi)
-				if ci.multi[base] || isPhi {
+				if k, _ := condCanon(base); ci.multi[k] || isPhi {
 					ne = it.e.clone()
 					learn(ne, ifi.Cond, s == 0)
 				}
